@@ -40,12 +40,40 @@ template<typename A> using string = std::basic_string<char, std::char_traits<cha
 // common random declarations
 namespace random_utils {
   static std::random_device rd; // possibly unsafe in MinGW with GCC < 9.2
+#ifdef DATASKETCHES_VERIF
+  // verification hook: the harness may install a source for the raw 64-bit draws and for the fair coin;
+  // with no source installed the behaviour is that of the original engines
+  typedef uint64_t (*verif_raw_source_fn)();
+  typedef uint32_t (*verif_bit_source_fn)();
+  inline verif_raw_source_fn& verif_raw_source() { static thread_local verif_raw_source_fn f = nullptr; return f; }
+  inline verif_bit_source_fn& verif_bit_source() { static thread_local verif_bit_source_fn f = nullptr; return f; }
+  struct verif_rand_engine {
+    typedef uint64_t result_type;
+    static constexpr result_type min() { return 0; }
+    static constexpr result_type max() { return UINT64_MAX; }
+    explicit verif_rand_engine(uint64_t s): fallback_(s) {}
+    void seed(uint64_t s) { fallback_.seed(s); }
+    result_type operator()() { return verif_raw_source() ? verif_raw_source()() : fallback_(); }
+    std::mt19937_64 fallback_;
+  };
+  struct verif_bit_engine {
+    explicit verif_bit_engine(uint32_t s): fallback_(s) {}
+    uint32_t operator()() { return verif_bit_source() ? (verif_bit_source()() & 1u) : fallback_(); }
+    std::independent_bits_engine<std::mt19937, 1, uint32_t> fallback_;
+  };
+  static thread_local verif_rand_engine rand(rd());
+#else
   static thread_local std::mt19937_64 rand(rd());
+#endif
   static thread_local std::uniform_real_distribution<> next_double(0.0, 1.0);
   static thread_local std::uniform_int_distribution<uint64_t> next_uint64(0, UINT64_MAX);
 
   // thread-safe random bit
+#ifdef DATASKETCHES_VERIF
+  static thread_local verif_bit_engine
+#else
   static thread_local std::independent_bits_engine<std::mt19937, 1, uint32_t>
+#endif
     random_bit(static_cast<uint32_t>(std::chrono::system_clock::now().time_since_epoch().count()
       + std::hash<std::thread::id>{}(std::this_thread::get_id())));
 
